@@ -199,6 +199,24 @@ fn contexts() {
                  if inside { "in_config_closure" } else { "plain" }, (before > 0) as u8, fin(), dropped(),
                  rust_cc::state::allocated_bytes().unwrap(), LIVE.load(Ordering::Relaxed) - base);
     }
+    // Cc::new from inside a config closure (the configuration cannot be read there): no automatic
+    // collection may start, whatever the settings; the allocation itself works.
+    for auto in [false, true] {
+        reset();
+        rust_cc::config::config(|c| { c.set_auto_collect(auto); c.set_buffered_objects_threshold(std::num::NonZeroUsize::new(1)); }).unwrap();
+        {
+            let a = Cc::new(Node::new());
+            let b = Cc::new(Node::new());
+            *a.next.borrow_mut() = Some(b.clone());
+            *b.next.borrow_mut() = Some(a.clone());
+        }
+        let e0 = rust_cc::state::executions_count().unwrap();
+        let made = rust_cc::config::config(|_c| { let x = Cc::new(Node::new()); let ok = x.canary.get() == 0xC0FFEE; drop(x); ok }).unwrap();
+        let e1 = rust_cc::state::executions_count().unwrap();
+        println!("S ctx_new_in_config_closure_auto{} made={} exec_delta={} garbage_dropped_inside={}", auto as u8, made as u8, e1 - e0, dropped().saturating_sub(1));
+        rust_cc::config::config(|c| { c.set_auto_collect(false); c.set_buffered_objects_threshold(None); }).unwrap();
+        collect_cycles();
+    }
     println!("DONE");
 }
 
